@@ -136,6 +136,29 @@ def run(ctx):
                                     and isinstance(c.args[0], ast.Name) and c.args[0].id == lp2.target.id
                                     for b in lp2.body for c in ast.walk(b)):
                                 else_pops = True
+                    if in_body and not else_pops:
+                        # ... or the failed paths are recorded in a table (dict of counts, set) and the result is rebuilt from the requested
+                        # list by a loop that consults the table and appends the paths it keeps to the list that is returned
+                        rn_ = returned_name(gi.node) or "?"
+                        tables = {t_.value.id for b in i.orelse for st_ in ast.walk(b) if isinstance(st_, (ast.Assign, ast.AugAssign))
+                                  for t_ in (st_.targets if isinstance(st_, ast.Assign) else [st_.target])
+                                  if isinstance(t_, ast.Subscript) and isinstance(t_.value, ast.Name)
+                                  and any(isinstance(x, ast.Attribute) and x.attr == "filepath" for x in ast.walk(t_.slice))}
+                        tables |= {c.func.value.id for b in i.orelse for c in ast.walk(b) if isinstance(c, ast.Call) and isinstance(c.func, ast.Attribute)
+                                   and c.func.attr == "add" and isinstance(c.func.value, ast.Name)}
+                        for lp2 in [n for n in own_walk(gi.node) if isinstance(n, ast.For) and isinstance(n.iter, ast.Name) and n.iter.id == rn_
+                                    and isinstance(n.target, ast.Name)]:
+                            for if2 in [n for n in ast.walk(lp2) if isinstance(n, ast.If)]:
+                                if not any(isinstance(x, ast.Name) and x.id in tables for x in ast.walk(if2.test)):
+                                    continue
+                                kept = [c.func.value.id for br in (if2.body, if2.orelse) for st_ in br for c in ast.walk(st_)
+                                        if isinstance(c, ast.Call) and isinstance(c.func, ast.Attribute) and c.func.attr == "append"
+                                        and isinstance(c.func.value, ast.Name) and len(c.args) == 1 and isinstance(c.args[0], ast.Name)
+                                        and c.args[0].id == lp2.target.id]
+                                la_gi2 = local_assignments(gi.node)
+                                if any(any(d[0] == "assign" and isinstance(d[1], ast.Name) and d[1].id == k_ for d in la_gi2.get(rn_, []))
+                                       or k_ == rn_ for k_ in kept):
+                                    else_pops = True
                     if in_body and else_pops:
                         ok = True
                     elif in_body and any(isinstance(x, ast.Attribute) and x.attr == "filepath" for b in i.orelse for x in ast.walk(b)):
